@@ -92,7 +92,7 @@ claim(
     "other",
     "Bounded. MediaQuery::merge against the logical intersection: for each concrete pair of queries the media environment (media type x truth value of every feature condition) is symbolic and "
     "Success(r) must be satisfied by exactly the environments satisfying both queries, Empty only when none does, in both argument orders. Quick tier: one representative pair per branch of merge "
-    "(22 pairs incl. case-insensitivity and non-conjunctions); thorough tier: all 476 unordered pairs of the universe {no type, all, screen, print} x {none, not, only} x subsets of {(a),(b)} minus the "
+    "(22 pairs incl. case-insensitivity and non-conjunctions); thorough tier: every unordered pair (one per harness) of a 19-query universe - (a), (b), all, all and (a), {none,not,only} x (screen x subsets of {(a),(b)}, print) - minus the "
     "statement's exclusions. Visitor::merge_media_queries: the all-empty case. NOT covered: symbolic query strings, the media query parser/printer, visit_media_rule.",
     K_TRUST + " Query strings are concrete (symbolic strings exhaust CBMC).",
     "Kani harness per concrete query pair with symbolic media environment",
